@@ -9,7 +9,7 @@
    it had not, notes/XF4Refuted_before_fix.v compiled instead and exhibited the violation. *)
 From Coq Require Import List NArith Bool.
 From LBZ Require Import Gen.Consts SchedX.XState Gen.SchedXTab SchedX.XSet SchedX.XModel SchedX.XInvDefs
-  SchedX.XF4 SchedX.XOracle SchedX.XSeq SchedX.XC10.
+  SchedX.XF4 SchedX.XOracle SchedX.XSeq SchedX.XC10 SchedX.XOwn SchedX.XC11b.
 Import ListNotations.
 Local Open Scope N_scope.
 
@@ -48,6 +48,22 @@ Theorem C10_speculation_free :
     (completed st -> x_written st = L /\ R = true).
 Proof. exact C10_speculation_free_gen. Qed.
 
+(* The same with the hypothesis a caller can observe.  [terminated st]: nothing failed and
+   can_terminate() holds (the workers may exit); that the order is then empty (every confirmed
+   block has been written) is a theorem: the ownership invariant of order_q (SchedX/XOwn.v).
+   [opreach]: as [oreach], and every POk label advances the parser's bit position by at least
+   HDR_MIN = 32 bits.  That holds of parse() (parse.c): it returns OK only after it has consumed
+   the 48-bit block magic and the 32-bit block CRC in the same call.  The model's parse1 admits
+   POk labels without progress, and with them the statement is false of the model
+   (Properties_C11x.C11x_order_empty_without_progress_refuted). *)
+Theorem C10_speculation_free_terminated :
+  forall (O : oracle) n tin tout ultra st L R,
+    opreach O gen_cfg (init_state n tin tout ultra) st -> SeqDec O 0 0 L R ->
+    (exists l', L = x_written st ++ l') /\
+    (x_failed st <> None -> R = false) /\
+    (terminated st -> x_written st = L /\ R = true).
+Proof. exact C10_speculation_free_term_gen. Qed.
+
 (* non-vacuity: the scenario of finding F4 runs in the model up to the critical
    event; with the test in place the stale job is dropped instead of re-queued *)
 Example C10_example_f4_scenario_repaired :
@@ -74,6 +90,27 @@ Proof.
       * exact I.
       * vm_compute; reflexivity.
     + vm_compute. reflexivity.
+    + vm_compute; reflexivity.
+  - vm_compute. repeat split; reflexivity.
+Qed.
+
+(* the same run satisfies the hypotheses of C10_speculation_free_terminated *)
+Example C10_example_empty_stream_terminated :
+  exists st, opreach O_empty gen_cfg (init_state 2 8 32 false) st /\ terminated st /\ x_written st = [].
+Proof.
+  eexists. split.
+  - eapply (opreach_step O_empty gen_cfg _ _ (EvParse1 (Some 0) (PFinish (mkdbs 16 1) 0)) _).
+    + eapply (opreach_step O_empty gen_cfg _ _ EvParse0 _).
+      * eapply (opreach_step O_empty gen_cfg _ _ EvEof _).
+        -- eapply (opreach_step O_empty gen_cfg _ _ (EvInput 2 0) _); [apply opreach_init|exact I|exact I|vm_compute; reflexivity].
+        -- exact I.
+        -- exact I.
+        -- vm_compute; reflexivity.
+      * exact I.
+      * exact I.
+      * vm_compute; reflexivity.
+    + vm_compute. reflexivity.
+    + exact I.
     + vm_compute; reflexivity.
   - vm_compute. repeat split; reflexivity.
 Qed.
